@@ -144,6 +144,8 @@ pub fn run_feprog(_h: &Ev, evs: &mut Vec<Value>) {
                 "square_repeatdly" => r[a].square_repeatdly(get_usize(&e, "n")),
                 "invert" => r[a].invert(),
                 "pow25523" => r[a].pow25523(),
+                // the same value through its canonical byte representation (another limb representation of it)
+                "recanon" => Fe::from_bytes(&r[a].to_bytes()),
                 "is_negative" => return out_bool(r[a].is_negative()),
                 "is_nonzero" => return out_bool(r[a].is_nonzero()),
                 "eq" => return out_bool(r[a] == r[b]),
